@@ -351,10 +351,10 @@ pub fn exec(req: &[String], out: &mut Out, tmpdir: &std::path::Path) {
     let load = std::fs::read_to_string("/proc/loadavg").ok().and_then(|s| s.split(' ').next().and_then(|v| v.parse::<f64>().ok())).unwrap_or(0.0);
     let cores = std::thread::available_parallelism().map(|n| n.get()).unwrap_or(1) as f64;
     let factor = ((load / cores).ceil() as u64).clamp(1, 6);
-    let limit = session_timeout().max(40) * factor;
+    let limit = std::env::var("VERIF_C09_LIMIT").ok().and_then(|v| v.parse().ok()).unwrap_or(session_timeout().max(40) * factor.min(3));
     let mut results = run_sessions(&sessions, tmpdir, "c09", par, limit, |s, emit| session(&s.0, &s.1, emit));
     for i in 0..sessions.len() {
-        if results[i].1 == "timeout" && std::env::var("VERIF_NO_RETRY").is_err() {
+        if results[i].1 == "timeout" && std::env::var("VERIF_NO_RETRY").is_err() && out.stats.get("session_retried_after_timeout").and_then(|v| v.as_u64()).unwrap_or(0) < 3 {
             out.count("session_retried_after_timeout", 1);
             let again = run_sessions(&sessions[i..i + 1], tmpdir, "c09r", 1, limit * 2, |s, emit| session(&s.0, &s.1, emit));
             results[i] = again.into_iter().next().unwrap();
